@@ -31,4 +31,12 @@ M("sign-mask-one", "subspacemin.py", "    mask = dHat != 0\n", "    mask = dHat 
 M("free-Z-zeros", "subspacemin.py", "    Z[free_vars, np.arange(nb_free_vars)] = 1\n", "    Z[free_vars, np.arange(nb_free_vars)] = 0\n", ["FREE"])
 
 # ---- PIN: after the walk (round 5)
-M("pin-rebuild-after-walk", "cauchy.py", "    x_cp[t >= t_cur] = (x + t_old * d)[t >= t_cur]\n", "    x_cp = np.clip(x - t_old * grad, lb, ub)\n", ["PIN"])
+M("pin-rebuild-after-walk", "cauchy.py", "    x_cp[d != 0] = (x + t_old * d)[d != 0]\n", "    x_cp = np.clip(x - t_old * grad, lb, ub)\n", ["PIN"])
+
+# finding 18 (pinned form): the completion selects the variables by their breakpoint value; with two breakpoints tied at
+# t_cur a variable already fixed is put back at x
+M("pin-tail-mask-on-breakpoints", "cauchy.py", "    x_cp[d != 0] = (x + t_old * d)[d != 0]\n",
+  "    x_cp[t >= t_cur] = (x + t_old * d)[t >= t_cur]\n", ["PIN", "CPFORM"], canary=True,
+  note="pinned defect 18: tied breakpoints")
+Q("pin-tail-named-mask", "cauchy.py", "    x_cp[d != 0] = (x + t_old * d)[d != 0]\n",
+  "    still_free = d != 0\n    x_cp[still_free] = (x + t_old * d)[still_free]\n", ["PIN", "CPFORM"])
